@@ -41,7 +41,7 @@ PROFILES = {
     'C10': gen.profile(p_oneof=0.45, p_sw=0.1, p_rec=0.1, p_fail=0.25, p_cand_falsy=0.3, p_contain_shape=0.4, p_deep_chain=0.1, p_lazy_fail_shape=0.12, p_reuse_lazy=0.25, p_share_cand=0.3, p_sibling_oneof_shape=0.1, p_late_oneof_shape=0.1),
     'C11': gen.profile(p_rec=0.5, p_sw=0.1, p_oneof=0.15, p_rec_nested=0.45, p_falsy_ad=0.3, p_nested_exhaust_shape=0.3),
     'C12': gen.profile(p_retry=0.8, p_fail=0.5, n_max=6),
-    'C13': gen.profile(n_max=7),
+    'C13': gen.profile(n_max=7, p_fatal=0.12),
     'C14': gen.profile(p_retry=0.4, p_fail=0.25),
     'C19': gen.profile(p_rec=0.1),
 }
@@ -146,7 +146,7 @@ def gen_prog(rng, prop, hostile_ok=True):
     if hostile_ok and rng.random() < (0.3 if prop == 'C09' else HOSTILE_SHARE):
         fam = rng.choice((['switch_unknown_label'] * 3 if prop == 'C09' else []) + HOSTILE_FAMILIES + (['dup_param'] if prop == 'C03' else [])
                          + (['rec_inner', 'rec_inner'] if prop in ('C01', 'C03', 'C09', 'C10', 'C11') else [])
-                         + (['rec_outside_consumer'] * 2 if prop in ('C01', 'C03', 'C04', 'C11') else []))
+                         + (['rec_outside_consumer'] * (4 if prop == 'C04' else 2) if prop in ('C01', 'C03', 'C04', 'C11') else []))
         if fam == 'rec_inner':
             prof['rec_inner'] = True
             prof['p_rec'] = max(prof['p_rec'], 0.35)
